@@ -85,7 +85,10 @@ def packSrcStep (w : WM) (ti : Nat) (e : Handle) (setVal : WM → CompId → Val
 def packFinish (w : WM) (isCreate : Bool) (e : Handle) (initial : Mask) (sh : Shared) (p : PackSt) (cbs : List Cb) :
     WM × List Cb :=
   let supplied := Mask.ofList (p.src.map (·.1))
-  let ga := w.getArch p.final sh
+  let stay : Option Nat := if isCreate || !(initial == p.final) then none else (w.locOf e).arch
+  let ga : WM × Nat := match stay with
+    | some pi => (w, pi)
+    | none => w.getArch p.final sh
   let ti := ga.2
   let moved := packMoved info ga.1 ti isCreate e initial p supplied
   let w1 := moved.1
@@ -168,8 +171,10 @@ theorem packFinish_tab (w : WM) (isCreate : Bool) (e : Handle) (initial : Mask) 
     (cbs : List Cb) : tabOf (packFinish info w isCreate e initial sh p cbs).1 = tabOf w := by
   unfold packFinish
   dsimp only
-  rw [foldl_tab _ (packSrcStep_tab info _ _ _ _), foldl_tab _ (packStaleStep_tab info _ _ _ _), packMoved_tab,
-    getArch_tab]
+  rw [foldl_tab _ (packSrcStep_tab info _ _ _ _), foldl_tab _ (packStaleStep_tab info _ _ _ _), packMoved_tab]
+  split
+  · rfl
+  · exact getArch_tab _ _ _
 
 /-! ## the fold over the commands: only `destroyNow` touches the id table, and only once -/
 
